@@ -638,7 +638,14 @@ impl<SE: extensions::ShellExtensions> ExecuteInPipeline<SE> for ast::Command {
                 // Set up any additional redirects.
                 if let Some(redirects) = redirects {
                     for redirect in &redirects.0 {
-                        setup_redirect(&mut pipeline_context.shell, &mut params, redirect).await?;
+                        // A redirection that fails makes this command fail; it does not abort
+                        // what the command is part of.
+                        if let Err(e) =
+                            setup_redirect(&mut pipeline_context.shell, &mut params, redirect).await
+                        {
+                            writeln!(params.stderr(&pipeline_context.shell), "error: {e}")?;
+                            return Ok(ExecutionResult::general_error().into());
+                        }
                     }
                 }
 
